@@ -14,6 +14,7 @@ inputs of the correspondence run (exact regime).  The order theorems hold for ev
 -/
 import OFV.Proofs.C03
 import OFV.Proofs.C03Normal
+import OFV.Proofs.C03Spec
 import Mathlib.Tactic.NormNum
 
 namespace OFV.C03
@@ -131,5 +132,30 @@ theorem is_normal_ordered_iff_fixed_point (tol : Rat) (t : Term) (c : GQ) (hc : 
   · intro h
     have := normal_ordered_is_normal_fermion tol [(t, c)]
     rwa [h] at this
+
+/-! ## the fermionic Spec satisfies the CAR (hypotheses of `normal_ordered_sound_fermion`)
+
+State by state, for the reference semantics `OFV.Spec.actF` that the oracle evaluates.  (The
+packaging of these facts as a ring interpretation — linear extension to formal sums — is not
+formalised; see OPEN_STATEMENTS.) -/
+
+/-- `a_j a_j^† + a_j^† a_j = 1` on every Fock basis state. -/
+theorem spec_car_same_mode (j s : Nat) :
+    Spec.actFTerm [(j, 0), (j, 1)] s = (if s.testBit j then none else some (0, s)) ∧
+    Spec.actFTerm [(j, 1), (j, 0)] s = (if s.testBit j then some (0, s) else none) :=
+  Proofs.C03.spec_car_same_mode j s
+
+/-- `a_j a_j = 0 = a_j^† a_j^†` on every Fock basis state. -/
+theorem spec_car_square (j a s : Nat) : Spec.actFTerm [(j, a), (j, a)] s = none :=
+  Proofs.C03.spec_car_square j a s
+
+/-- ladder operators of different modes anticommute on every Fock basis state: both orders
+vanish together, or reach the same state with opposite signs. -/
+theorem spec_car_diff_modes (i j a b s : Nat) (hij : i ≠ j) :
+    match Spec.actFTerm [(i, a), (j, b)] s, Spec.actFTerm [(j, b), (i, a)] s with
+    | some (k1, s1), some (k2, s2) => s1 = s2 ∧ k1 ≠ k2 ∧ k1 < 2 ∧ k2 < 2
+    | none, none => True
+    | _, _ => False :=
+  Proofs.C03.spec_car_diff_modes i j a b s hij
 
 end OFV.C03
